@@ -238,7 +238,7 @@ func (p *Parser) parse(path string, imported bool) (Program, error) {
 		h := sha256.New()
 		h.Write(source)
 
-		p.prefix = fmt.Sprintf("%x", h.Sum(nil))[0:7] // Only use the 7 first characters (inspired by Git).
+		p.prefix = fmt.Sprintf("i%x", h.Sum(nil))[0:8] // Only use the 7 first characters (inspired by Git), led by a letter because the prefix starts identifiers.
 	}
 	program, err := p.evaluateProgram()
 
